@@ -667,6 +667,64 @@ fn c10_graph(adj: &Adj, st: &mut Stats, only: &Option<String>) {
     }
 }
 
+/// the same copy of the library call, compiled in this crate
+#[inline(never)]
+fn offer_node_from_vcheck(n: &Node, ctx: &mut desert::SerializationContext<Vec<u8>>) -> desert::Result<bool> {
+    ctx.store_ref_or_object(n)
+}
+
+/// One object offered from code in two crates (each has its own instantiation of the generic
+/// library call, hence possibly its own vtable for `Node as Any`): it is still one object. Every
+/// order of three offers from the two crates, for one and for two distinct nodes.
+fn c10_two_crates(st: &mut Stats) {
+    use desert::BinaryOutput;
+    for pattern in 0..8u8 {
+        for two_nodes in [false, true] {
+            let a = Node::new(11);
+            let b = Node::new(12);
+            let (o, _) = bridge::err::guarded(|| {
+                let mut ctx = desert::SerializationContext::new(Vec::new());
+                let mut seen: Vec<*const Node> = Vec::new();
+                let mut expect: Vec<u8> = Vec::new();
+                for k in 0..3 {
+                    let n: &Node = if two_nodes && k == 1 { &b } else { &a };
+                    let from_bridge = pattern >> k & 1 == 1;
+                    let is_new = if from_bridge { bridge::tables::offer_node_from_bridge(n, &mut ctx)? } else { offer_node_from_vcheck(n, &mut ctx)? };
+                    match seen.iter().position(|p| std::ptr::eq(*p, n)) {
+                        Some(i) => expect.extend(varu(i as u32 + 1)),
+                        None => {
+                            seen.push(n);
+                            expect.extend([0, n.label]);
+                        }
+                    }
+                    if is_new {
+                        ctx.write_u8(n.label);
+                    }
+                }
+                Ok((ctx.into_output(), expect))
+            });
+            st.states += 1;
+            st.transitions += 3;
+            st.validated += 1;
+            match o {
+                Out::Ok((got, want)) if got == want => {
+                    st.bump("offers-from-two-crates");
+                    st.nontrivial += 1;
+                }
+                other => {
+                    let crates: Vec<&str> = (0..3).map(|k| if pattern >> k & 1 == 1 { "bridge" } else { "vcheck" }).collect();
+                    st.violate(
+                        "C10 one object offered from code in two crates is written as two objects".into(),
+                        "c10:two-crates".into(),
+                        json!({"offers_from": crates, "second_offer_is_another_node": two_nodes, "result": format!("{other:?}").chars().take(200).collect::<String>()}),
+                    );
+                    return;
+                }
+            }
+        }
+    }
+}
+
 /// Two kinds of tracked objects at one address (a node and the core embedded at its offset 0):
 /// all graphs with <= n nodes where each node has <= 1 node edge and <= 1 core edge
 fn c10_typed(max_n: usize, st: &mut Stats) {
@@ -885,13 +943,14 @@ pub fn run_c10(tier: &str, only: Option<String>) -> i32 {
         }
     });
     run.stats = stats;
-    if run.only.as_ref().map(|k| k.starts_with("c10typed") || k.starts_with("c10lookup")).unwrap_or(true) {
+    if run.only.as_ref().map(|k| k.starts_with("c10typed") || k.starts_with("c10lookup") || k.starts_with("c10:two-crates")).unwrap_or(true) {
         let mut st = Stats::default();
+        c10_two_crates(&mut st);
         c10_typed(if thorough { 4 } else { 3 }, &mut st);
         c10_long_chains(&mut st);
         run.stats.merge(st);
     }
-    run.rule = format!("all rooted digraphs with <= {max_n} nodes and ordered out-edge lists of length <= 2 (self-loops, diamonds, back edges, unreachable nodes), encoded by a codec that offers the node's heap address to store_ref_or_object and resolves try_read_ref through a Weak self pointer; oracle: stream == pre-order first-encounter reference stream, decoded graph isomorphic with pointer-equal sharing and distinct nodes distinct, one object per reachable node, every reference id beyond the objects introduced so far (and u32::MAX) is Err; every graph also as a field of a record written through the real Adt API (a record without steps, and chunk 0 / chunk 1 of a record with a FieldAdded step): bytes == record framing around the same reference stream, decoded shape isomorphic, sibling fields intact; plus all graphs with <= 3 / 4 nodes whose nodes embed a second tracked object (a core at offset 0, i.e. at the same address) with <= 1 node edge and <= 1 core edge each: distinct objects of different types at one address keep distinct ids, on the writer and on the reader side; non-trivial = graph with sharing or a cycle");
+    run.rule = format!("all rooted digraphs with <= {max_n} nodes and ordered out-edge lists of length <= 2 (self-loops, diamonds, back edges, unreachable nodes), encoded by a codec that offers the node's heap address to store_ref_or_object and resolves try_read_ref through a Weak self pointer; oracle: stream == pre-order first-encounter reference stream, decoded graph isomorphic with pointer-equal sharing and distinct nodes distinct, one object per reachable node, every reference id beyond the objects introduced so far (and u32::MAX) is Err; every graph also as a field of a record written through the real Adt API (a record without steps, and chunk 0 / chunk 1 of a record with a FieldAdded step): bytes == record framing around the same reference stream, decoded shape isomorphic, sibling fields intact; plus all graphs with <= 3 / 4 nodes whose nodes embed a second tracked object (a core at offset 0, i.e. at the same address) with <= 1 node edge and <= 1 core edge each: distinct objects of different types at one address keep distinct ids, on the writer and on the reader side; one and two nodes offered three times from code compiled in two crates (each with its own instantiation of the library call), in all 8 orders: one object stays one object; non-trivial = graph with sharing or a cycle");
     run.bounds = json!({"nodes": max_n, "out_degree": 2});
     run.assumptions = vec!["the harness codec is safe code: identities are heap addresses owned by live Rc's".into()];
     run.finish()
